@@ -71,13 +71,31 @@ async def run_pyscript(case):
     from custom_components.pyscript.global_ctx import GlobalContextMgr
 
     apps_config = {a: {} for a in case.get("apps", [])} or None
-    env0 = PyscriptEnv(files=case["files"], legacy=case["legacy"], apps_config=apps_config)
+    files = dict(case["files"])
+    files.update(case.get("before") or {})          # reload scenario: start with the sources before the edit
+    env0 = PyscriptEnv(files=files, legacy=case["legacy"], apps_config=apps_config)
     ENVS.append(env0)
     async with env0 as env:
         await env.settle()
-        for _ctx, _fn, ev in case["fires"]:
-            env.hass.bus.async_fire(ev, {})
+        if case.get("before"):
+            import time as _time
+
+            for k, rel in enumerate(sorted(case["before"])):
+                env.write(rel, case["files"][rel], mtime=_time.time() + 100 + k)      # the edit
+            await env.reload()
             await env.settle()
+        for _ctx, _fn, ev, opts in case["fires"]:
+            kind = opts.get("kind")
+            if kind == "state":
+                env.hass.states.async_set("pyscript." + ev, str(opts["v"]))
+            elif kind == "event":
+                env.hass.bus.async_fire(ev, {"val": opts["v"]})
+            else:
+                env.hass.bus.async_fire(ev, {})
+            if opts.get("gap"):
+                await env.advance(float(opts["gap"]))       # later firings overlap with runs that are asleep
+            else:
+                await env.settle()
         ctxs = dict(GlobalContextMgr.contexts)
 
         def mod_ctx_of(m):
